@@ -1,7 +1,8 @@
 // included by c19_ffi.rs
 
-const F_CALS: [&str; 4] = ["iso8601", "gregory", "japanese", "hebrew"];
-const F_DATES: [(i32, u8, u8); 5] = [(2021, 3, 4), (2020, 2, 29), (1969, 12, 31), (2019, 1, 31), (275_760, 9, 13)];
+const F_CALS: [&str; 6] = ["iso8601", "gregory", "japanese", "hebrew", "chinese", "ethiopic"];
+// (2020-06-01 lies in the chinese leap month M04L, 2024-02-20 in the hebrew leap month M05L)
+const F_DATES: [(i32, u8, u8); 7] = [(2021, 3, 4), (2020, 2, 29), (1969, 12, 31), (2019, 1, 31), (275_760, 9, 13), (2020, 6, 1), (2024, 2, 20)];
 const F_TIMES: [(u8, u8, u8, u16, u16, u16); 3] = [(5, 6, 7, 8, 9, 10), (23, 59, 59, 999, 998, 997), (0, 0, 0, 0, 0, 1)];
 
 fn f_durations() -> Vec<[f64; 10]> {
@@ -31,6 +32,11 @@ impl Space for Ffi {
         let ix = unrank(i, &[F_CALS.len() as u64, F_DATES.len() as u64, F_TIMES.len() as u64]);
         let (cal_id, (y, m, dd), t) = (F_CALS[ix[0]], F_DATES[ix[1]], F_TIMES[ix[2]]);
         let attrs = || vec![("calendar", cal_id.to_string()), ("date", format!("{y}-{m}-{dd}")), ("time", format!("{t:?}"))];
+        if cal_id == "chinese" && y.abs() > 10_000 {
+            // ICU4X's astronomical calendars panic on far years (known finding of C03): not a subject of the pairing
+            out.unjudged += 1;
+            return;
+        }
         let mut names: BTreeSet<String> = BTreeSet::new();
         let n = &mut names;
         out.nontrivial += 1;
@@ -40,6 +46,12 @@ impl Space for Ffi {
         let fcal_box = fr(fcal::Calendar::from_utf8(cal_id.as_bytes())).expect("ffi calendar");
         let fc: &fcal::Calendar = &fcal_box;
         n.insert("Calendar::from_utf8".into());
+        let cased: Vec<String> = vec![cal_id.to_uppercase(), cal_id.chars().enumerate().map(|(k, c)| if k == 0 { c.to_ascii_uppercase() } else { c }).collect(), cal_id.chars().enumerate().map(|(k, c)| if k % 2 == 1 { c.to_ascii_uppercase() } else { c }).collect()];
+        for bad in if ix[1] == 0 && ix[2] == 0 { cased.iter().map(|s| s.as_str()).collect::<Vec<&str>>() } else { vec![] } {
+            let f = render(call(|| fr(fcal::Calendar::from_utf8(bad.as_bytes())).map(|c| c.identifier())));
+            let c = render(call(|| Calendar::from_utf8(bad.as_bytes()).map(|c| c.identifier())));
+            same(out, "Calendar::from_utf8", f, c, || vec![("text", bad.to_string())]);
+        }
         for bad in if i == 0 { vec!["", "ISO8601", "iso8601x", "gregorian"] } else { vec![] } {
             let f = render(call(|| fr(fcal::Calendar::from_utf8(bad.as_bytes())).map(|c| c.identifier())));
             let c = render(call(|| Calendar::from_utf8(bad.as_bytes()).map(|c| c.identifier())));
@@ -91,6 +103,14 @@ impl Space for Ffi {
                 let da = || vec![("duration", format!("{f:?}"))];
                 pairs!(out, n, "Duration::create", da, snap_dur_ffi, snap_dur_core, fdur::Duration::create(f[0], f[1], f[2], f[3], f[4], f[5], f[6], f[7], f[8], f[9]), dur10(*f));
                 pairs!(out, n, "Duration::abs", da, snap_dur_ffi, snap_dur_core, Ok(fd[k].abs()), Ok(cd[k].abs()));
+                // receivers that only from_day_and_time can build: a day of one sign next to a time of the other
+                for day in [1.0f64, -1.0, 0.0] {
+                    if let (Ok(fm), cm) = (fr(fdur::Duration::from_day_and_time(day, fd[k].time())), Duration::from_day_and_time(temporal_rs::primitive::FiniteF64::try_from(day).unwrap(), cd[k].time())) {
+                        let dm = || vec![("duration", format!("day {day} next to the time of {f:?}"))];
+                        pairs!(out, n, "Duration::abs", dm, snap_dur_ffi, snap_dur_core, Ok(fm.abs()), Ok(cm.abs()));
+                        pairs!(out, n, "Duration::negated", dm, snap_dur_ffi, snap_dur_core, Ok(fm.negated()), Ok(cm.negated()));
+                    }
+                }
                 pairs!(out, n, "Duration::negated", da, snap_dur_ffi, snap_dur_core, Ok(fd[k].negated()), Ok(cd[k].negated()));
                 for (j, _) in durs.iter().enumerate() {
                     pairs!(out, n, "Duration::add", da, snap_dur_ffi, snap_dur_core, fd[k].add(&fd[j]), cd[k].add(&cd[j]));
@@ -155,7 +175,7 @@ impl Space for Ffi {
                 pairs!(out, n, "PlainTime::since", attrs, snap_dur_ffi, snap_dur_core, ft.since(&ft2, f_settings(l, s, mo, inc)), temporal_rs::options::RoundingIncrement::try_new(inc.unwrap_or(1)).and_then(|_| ct.since(&ct2, diff(l, s, mo, inc.filter(|x| *x > 0)))));
                 pairs!(out, n, "PlainTime::since(equal operands)", attrs, snap_dur_ffi, snap_dur_core, ft.since(&ft, f_settings(l, s, mo, inc)), temporal_rs::options::RoundingIncrement::try_new(inc.unwrap_or(1)).and_then(|_| ct.since(&ct, diff(l, s, mo, inc.filter(|x| *x > 0)))));
             }
-            for (u, inc, mo) in [(Unit::Minute, Some(15.0), Some(RoundingMode::Ceil)), (Unit::Nanosecond, None, None), (Unit::Hour, Some(5.0), None), (Unit::Day, None, None), (Unit::Second, Some(f64::NAN), None)] {
+            for (u, inc, mo) in [(Unit::Minute, Some(15.0), Some(RoundingMode::Ceil)), (Unit::Nanosecond, None, None), (Unit::Hour, Some(5.0), None), (Unit::Day, None, None), (Unit::Second, Some(f64::NAN), None), (Unit::Nanosecond, Some(500.0), Some(RoundingMode::Floor)), (Unit::Nanosecond, Some(7.0), None), (Unit::Nanosecond, Some(1000.0), None), (Unit::Nanosecond, Some(0.0), None), (Unit::Microsecond, Some(250.0), Some(RoundingMode::HalfEven)), (Unit::Millisecond, Some(1.0), Some(RoundingMode::Expand)), (Unit::Hour, Some(24.0), None)] {
                 pairs!(out, n, "PlainTime::round", attrs, snap_time_ffi, snap_time_core, ft.round(f_unit(u), inc, mo.map(fopt::RoundingMode::from)), ct.round(u, inc, mo));
             }
             for (is_minute, digits, su, mo) in [(false, None, None, None), (true, None, None, None), (false, Some(3u8), None, Some(RoundingMode::Ceil)), (false, Some(10), None, None), (false, None, Some(Unit::Hour), None), (false, Some(2), Some(Unit::Millisecond), Some(RoundingMode::Floor))] {
@@ -190,7 +210,7 @@ impl Space for Ffi {
                     pairs!(out, n, "Calendar::year_month_from_partial", attrs, snap_ym_ffi, snap_ym_core, fc.year_month_from_partial(f_partial_date(p, fc), f_ov(ov)), c_partial_date(p, &ccal).and_then(|pp| ccal.year_month_from_partial(&pp, ov)));
                 }
             }
-            for oc in F_CALS {
+            for oc in F_CALS.iter().copied().filter(|c| !(*c == "chinese" && y.abs() > 10_000)) {
                 let (fo, co) = (fr(fcal::Calendar::from_utf8(oc.as_bytes())).expect("cal"), Calendar::from_str(oc).expect("cal"));
                 pairs!(out, n, "PlainDate::with_calendar", attrs, snap_date_ffi, snap_date_core, fdt0.with_calendar(&fo), cdt0.with_calendar(co.clone()));
             }
@@ -244,7 +264,7 @@ impl Space for Ffi {
                 }
             }
             pairs!(out, n, "PlainDateTime::with_time", attrs, snap_dt_ffi, snap_dt_core, f0.with_time(&ft2), c0.with_time(ct2));
-            for ocal in F_CALS {
+            for ocal in F_CALS.iter().copied().filter(|c| !(*c == "chinese" && y.abs() > 10_000)) {
                 let (fo, co) = (fr(fcal::Calendar::from_utf8(ocal.as_bytes())).expect("cal"), Calendar::from_str(ocal).expect("cal"));
                 pairs!(out, n, "PlainDateTime::with_calendar", attrs, snap_dt_ffi, snap_dt_core, f0.with_calendar(&fo), c0.with_calendar(co.clone()));
             }
